@@ -332,14 +332,19 @@ structure Out where
 def finishEnum (st : State) (e : EnumSyn) : State × List String :=
   match bitenumCheck e with
   | .ok d => ({ st.push (.enum e.name d) with curEnum := none },
-      [s!"verdict {e.name} accept"])
+      [s!"verdict {e.name} accept",
+       s!"enumarms {e.name} nonexh={b01 d.nonExhaustive} arb={b01 d.bits.isArbitraryInt} size={d.bits.size} base={showITy d.baseType} " ++
+         " ".intercalate (d.variants.map fun v => s!"{v.name}:{match v.discr with | .lit n => toString n | _ => "?"}:{b01 v.hasCfg}")])
   | .error r => ({ st.push (.rejected e.name) with curEnum := none },
       [s!"verdict {e.name} {showReject r}"])
 
 def finishDecl (st : State) (d : DeclSyn) : State × List String :=
   match expand st.resolve (customInfoOf st) d with
   | .ok p => ({ st.push (.bitfield d.name p) with curDecl := none },
-      [s!"verdict {d.name} accept", s!"surface {d.name} {showItems p.items}", s!"builder {d.name} {showBuilder p.builder}"]
+      [s!"verdict {d.name} accept", s!"surface {d.name} {showItems p.items}", s!"builder {d.name} {showBuilder p.builder}",
+       (match debugImpl p with
+        | some (n, fs) => s!"debugimpl {d.name} {n} " ++ " ".intercalate fs
+        | none => s!"debugimpl {d.name} -")]
         ++ bodyLines st p)
   | .error r => ({ st.push (.rejected d.name) with curDecl := none },
       [s!"verdict {d.name} {showReject r}"])
